@@ -25,7 +25,13 @@ def _assert_expected_unit(
         if isinstance(item, SymQuantity):
             components.append(item)
         elif isinstance(item, DimensionSymbol):
-            components.append(item.dimension)
+            # A vector all of whose components are zero is a zero: it matches any dimension, like a
+            # zero scalar does (its own dimension cannot be inferred and falls back to dimensionless).
+            parts = getattr(item, "components", None)
+            if parts is not None and all(part.scale_factor == 0 for part in parts):
+                components.append(0)
+            else:
+                components.append(item.dimension)
         elif isinstance(item, Symbolic):
             components.append(item.dimension)
         else:
